@@ -103,8 +103,11 @@ func C13(p *core.Prog, r *core.Report) {
 	tmp := core.NewReport("C13")
 	cachekey.TryCacheRules(p, tmp)
 	r.Rule("REPLAY", tmp.Rules["REPLAY"], 2)
+	// the key an entry is stored and looked up under is computed in TryCache (cmd/gts/io.go is one of C13's
+	// anchors): "an entry keyed for a different input" presupposes that the root digest is the digest of the input
+	r.Rule("KEY-5", tmp.Rules["KEY-5"], 6)
 	for _, o := range tmp.Obs {
-		if o.Rule == "REPLAY" {
+		if o.Rule == "REPLAY" || o.Rule == "KEY-5" {
 			r.Obs = append(r.Obs, o)
 		}
 	}
